@@ -48,6 +48,22 @@ def correspond(ctx):
             if m * k:
                 old = A[0]; B[0] = val(tc) + 1 if tc != 'z' else val(tc) + 1j
                 if A[0] != old: ctx.violation('c20:%s-shares-storage' % nm, '%s shares storage with its source' % nm, case)
+        # matrix(x, size, tc) with the typecode given explicitly (same or wider) and / or a new shape: always an independent copy, x keeps its shape
+        wider = {'i': 'idz', 'd': 'dz', 'z': 'z'}[tc]
+        for tc2 in wider:
+            shp = rng.choice([(m, k), (m * k, 1), (1, m * k), (k, m)])
+            for nm, f in (("matrix(x, tc='%s')" % tc2, lambda X: matrix(X, tc=tc2)), ("matrix(x, %r, '%s')" % (shp, tc2), lambda X: matrix(X, shp, tc2))):
+                views = [memoryview(A)] if tc == 'd' and m * k and rng.random() < 0.3 else []
+                B = f(A); evals += 1
+                want_size = (m, k) if 'tc=' in nm else shp
+                if A.size != (m, k): ctx.violation('c20:ctor-changes-source', '%s changed the size of x from %r to %r' % (nm, (m, k), A.size), case); A.size = (m, k)
+                if B is A: ctx.violation('c20:ctor-aliases', '%s returns x itself' % nm, case); continue
+                if B.typecode != tc2 or B.size != want_size or [complex(v) for v in B] != [complex(v) for v in A]:
+                    ctx.violation('c20:ctor-copy', '%s does not reproduce the values of x (typecode %s, size %r)' % (nm, B.typecode, B.size), case)
+                if m * k:
+                    old = A[0]; B[0] = B[0] + 1
+                    if A[0] != old: ctx.violation('c20:ctor-shares-storage', '%s shares storage with x' % nm, case); A[0] = old
+                for v in views: v.release()
         # tofile / fromfile
         if tc in 'dz' or tc == 'i':
             with tempfile.TemporaryFile() as f:
